@@ -239,6 +239,8 @@ def trace_obligations(ctx):
     nb = qgates.np_backend()
     seen_terms = {}
     aliases = []  # (label, first label with the same Lean term)
+    rows = []  # (table index, class name, obligation label, is the generic branch) of the entry obligations of tabs[PROP]
+    TRACED.clear()
 
     def emit(tab, label, name, k, nq, out, ref, ns=None):
         out = as_list(out)
@@ -255,7 +257,7 @@ def trace_obligations(ctx):
             plain = all(not x.is_controlled_by for x in out)
             tabs[PROP].ob(label + "_native", f"QV.Unroll.allNative {mask_of(ns)} {ids} && {'true' if plain else 'false'}", gate=name)
 
-    def attempt(label, name, k, fn, expensive=False, depth=3):
+    def attempt(label, name, k, fn, expensive=False, depth=3, row=None):
         """fn(params) -> (out, ref, nq, ns)"""
         try:
             for blabel, params, res in explore_branches(k, fn, depth=depth):
@@ -263,11 +265,17 @@ def trace_obligations(ctx):
                     raised.append((label + blabel, name, res))
                     continue
                 out, ref, nq, ns = res
+                if row is not None:
+                    # the traced row (every branch), kept for the instance check of the real rows
+                    # (faithful_suite): matrices / qubits of the emitted gates as trees in the parameters
+                    TRACED.setdefault(row, []).append((label + blabel, k, params, [(x.__class__.__name__, qgates.sgate_of(x)) for x in as_list(out)]))
                 costly = expensive or blabel.count("_p") >= 2
                 if costly and not ctx.thorough:
                     ctx.stat("kernel_obligations_left_to_thorough")
                     continue
                 emit(tabs[THOROUGH_PROP if costly else PROP], label + blabel, name, k, nq, out, ref, ns)
+                if row is not None and not costly:
+                    rows.append((row[0], name, label + blabel, blabel == ""))
         except (Untranslatable, BranchOnSymbol) as e:
             ctx.ob(label, False, "translator", f"{type(e).__name__}: {e}")
 
@@ -285,7 +293,7 @@ def trace_obligations(ctx):
                 g = info.make(list(range(info.nq)), params)
                 ref = info.make(list(range(info.nq)), params)
                 return table(g, nb), ref, info.nq, None
-            attempt(f"C10_entry_{tname}_{name}", name, info.np, fn)
+            attempt(f"C10_entry_{tname}_{name}", name, info.np, fn, row=(TABLE_NAMES.index(tname), name))
 
     # (b) the real translate_gate for every native set and every class of the tables
     done1q = set()
@@ -312,6 +320,19 @@ def trace_obligations(ctx):
             expensive = s2 == ("iSWAP",) and (info.nq >= 3 or (s1 == "GPI2" and info.np > 0))
             attempt(f"C10_tr_{sname}_{name}", name, info.np, fn, expensive=expensive, depth=3 if info.nq == 1 else 1)
 
+    # the Lean `u3Mat` of the ZYZ theorem (QV/Proofs/ZYZ.lean, as the expression matrix QV.ZYZ.u3Ex) is the
+    # matrix of the real gates.U3 for all parameter values (QV.Props.C10.T10_u3Mat_is_traced)
+    try:
+        S.plan = Plan(3)
+        u3trees = qgates.sgate_of(infos["U3"].make([0], [S.par(0), S.par(1), S.par(2)]))[0]
+        tabs[PROP].define("m_C10_u3_class", "List (List Ex)", gen.lean_matrix(u3trees))
+        tabs[PROP].ob("C10_u3_matrix", "matEqCheck 3 m_C10_u3_class QV.ZYZ.u3Ex && (m_C10_u3_class.length == 2)",
+                      supported="(normMat 3 m_C10_u3_class).isSome", gate="U3")
+    except (Untranslatable, BranchOnSymbol, KeyError) as e:
+        ctx.ob("C10_u3_matrix", False, "translator", f"{type(e).__name__}: {e}")
+    finally:
+        S.plan = None
+
     results = {}
     for prop, tab in tabs.items():
         # every proved entry / translate_gate obligation as a `PhaseEq` over the unit circle in the
@@ -321,7 +342,13 @@ def trace_obligations(ctx):
         tab.corollary(f"{prop}_entries_phaseEq", f"∀ o ∈ {prop}_entries, QV.Props.C10.EntryPhaseEq o",
                       f"fun o ho => QV.Props.C10.T10_entryPhaseEq_of_single o ({prop}_entries_ok o ho)",
                       needs=[f"{prop}_entries_ok"], imports=["QV.Props.C10b"])
-        status, passed = tab.emit(extra_imports=["QV.Model.Unroller"])
+        if prop == PROP:
+            end_to_end(tab, rows, dict(aliases), infos)
+        status, passed = tab.emit(extra_imports=["QV.Model.Unroller", "QV.Model.ZYZ"])
+        if prop == PROP:
+            ctx.stats["rows_in_generated_unroll_circuit"] = len([c for c in tab.cor_names if c.startswith("C10_row_")])
+            ctx.ob("C10_unroll_circuit", "C10_unroll_circuit" in tab.cor_names, "generated-kernel",
+                   "" if "C10_unroll_circuit" in tab.cor_names else "the end-to-end corollary was not emitted")
         ctx.stats[f"{prop}_obligations_with_simulator_reading"] = len([c for c in tab.cor_names if c.endswith("_single")])
         for name, expr, meta in tab.obs:
             ok, sup = status.get(name, (False, False))
@@ -338,6 +365,63 @@ def trace_obligations(ctx):
                 "meaning": "real translate_gate(CU3(0,1,θ,φ,λ), U3|iSWAP|I|Z|RZ|M): ∀ θ φ λ the product of the "
                            "returned gates = phase • CU3(θ,φ,λ); _native: all returned classes are native"})
     return raised
+
+
+TRACED = {}  # (table index, class name) -> [(label, np, params, [(class name, traced sgate)])], filled by trace_obligations
+
+
+def end_to_end(tab, rows, alias, infos):
+    """END TO END (generated, because tables and classes are read from the source): the traced rows
+    `C10_rows`, the traced class matrices `C10_classMats`, the arities `C10_arity`, the per-row facts
+    `C10_rows_ok` (from the `_single` corollaries) and `C10_unroll_circuit`
+    = QV.Props.C10.T10_unroll_circuit_of_rows instantiated with them (QV/Props/C10c.lean)."""
+    canon = lambda lab: alias.get(lab, lab)  # an entry with the same Lean term as an earlier one is checked once
+    obnames = {n for n, _, _ in tab.obs}
+    rows = [(ti, nm, "C10_row_" + lab[len("C10_entry_"):], canon(lab), gen_) for ti, nm, lab, gen_ in rows if canon(lab) in obnames]
+    ar = "(QV.Props.C10.arOf C10_arity)"
+    cm = "(QV.Props.C10.cmOf C10_classMats)"
+    tab.corollary("C10_arity", "List (Nat × Nat)",
+                  "[" + ", ".join(f"({cid(n)}, {i.nq})" for n, i in sorted(infos.items()) if i.generic) + "]", kind="def")
+    first = {}
+    for ti, nm, rn, lab, gen_ in rows:
+        if gen_:
+            first.setdefault(nm, lab)
+    tab.corollary("C10_classMats", "List (Nat × List (List Ex))",
+                  lambda have: "[" + ", ".join(f"({cid(nm)}, (QV.Ob.refGate o_{lab}).mat)" for nm, lab in sorted(first.items()) if lab in have) + "]",
+                  kind="def")
+    for ti, nm, rn, lab, gen_ in rows:
+        tab.corollary(rn, f"QV.Props.C10.RowOK {ar} ({ti}, {cid(nm)}, o_{lab})",
+                      f"⟨{lab}_single, by decide +kernel⟩", needs=[f"{lab}_single", "C10_arity"])
+    avail = lambda have: [r for r in rows if r[2] in have]
+    tab.corollary("C10_rows", "List QV.Props.C10.Row",
+                  lambda have: "[" + ", ".join(f"({ti}, {cid(nm)}, o_{lab})" for ti, nm, rn, lab, _ in avail(have)) + "]", kind="def")
+
+    def okproof(have):
+        t = "QV.forall_mem_nil _"
+        for ti, nm, rn, lab, _ in reversed(avail(have)):
+            t = f"QV.forall_mem_cons_of {rn}\n    ({t})"
+        return t
+    tab.corollary("C10_rows_ok", f"∀ r ∈ C10_rows, QV.Props.C10.RowOK {ar} r", okproof, needs=["C10_rows"])
+    # the key gate of every generic row is the class matrix on the template qubits (kernel-decided), so
+    # the key-gate half of `Faithful` is automatic for them (QV.Props.C10.T10_hg_generic)
+    tab.corollary("C10_rowsGeneric", "List QV.Props.C10.Row",
+                  lambda have: "[" + ", ".join(f"({ti}, {cid(nm)}, o_{lab})" for ti, nm, rn, lab, g_ in avail(have) if g_ and first.get(nm) in have) + "]",
+                  kind="def")
+    tab.corollary("C10_rowsGeneric_ok", f"C10_rowsGeneric.all (QV.Props.C10.rowGeneric {cm}) = true", "by decide +kernel",
+                  needs=["C10_rowsGeneric", "C10_classMats"])
+    tab.corollary(
+        "C10_unroll_circuit",
+        "∀ (T : QV.Unroll.Tables) (ρ : Nat → Nat → ℝ),\n"
+        f"    QV.Props.C10.Faithful C10_rows {ar} {cm} ρ T →\n"
+        "    ∀ (nat : QV.Unroll.Natives), QV.Unroll.Closed T nat → ∀ (fuel : Nat) (gs out : List QV.Unroll.UGate),\n"
+        f"    (∀ g ∈ gs, QV.Unroll.passThrough g.cls = true ∨ QV.Unroll.WellPlaced {ar} g) →\n"
+        "    QV.Unroll.unroll T nat fuel gs = some out →\n"
+        "    (∃ c : ℂ, ‖c‖ = 1 ∧ ∀ (ψ : Lab → ℂ) (x : Lab),\n"
+        f"      runCircuit (out.map (QV.Props.C10.semCls {cm} ρ)) ψ x = c * runCircuit (gs.map (QV.Props.C10.semCls {cm} ρ)) ψ x) ∧\n"
+        "    (∀ y ∈ out, QV.Unroll.isNative nat y.cls = true ∨ (y ∈ gs ∧ QV.Unroll.passThrough y.cls = true)) ∧\n"
+        f"    (∀ y ∈ out, QV.Unroll.passThrough y.cls = true ∨ QV.Unroll.WellPlaced {ar} y)",
+        f"fun T ρ hF nat hC fuel gs out hgs h =>\n    QV.Props.C10.T10_unroll_circuit_of_rows C10_rows {ar} {cm} C10_rows_ok T ρ hF nat hC fuel gs out hgs h",
+        needs=["C10_rows_ok", "C10_classMats"], imports=["QV.Props.C10c"])
 
 
 def extra_generated(ctx):
@@ -539,6 +623,7 @@ class Shapes:
         self.tables = [getattr(D, t) for t in TABLE_NAMES]
         self.tags = {}
         self.rows = [dict() for _ in self.tables]
+        self.real_rows = [dict() for _ in self.tables]  # (class, tag) -> (the real key gate, the real template gates)
         self.done = set()
 
     @staticmethod
@@ -577,6 +662,7 @@ class Shapes:
             except Exception:
                 continue  # producing the entry raises: no row
             self.rows[i][(c, t)] = [self.ugate(x) for x in tmpl]
+            self.real_rows[i][(c, t)] = (g, tmpl)
             for x in tmpl:
                 self.close(x, depth + 1)
 
@@ -1429,6 +1515,180 @@ def history_search(ctx):
     ctx.ob("C10_search_history", not new, "search", "" if not new else "failing histories: " + ", ".join(new[:6]))
 
 
+# ---------------------------------------------------------------------------
+# (5) the instance hypothesis of the end-to-end theorem, and the ZYZ formulas
+
+
+def faithful_suite(ctx, shapes):
+    """`Faithful` (QV/Props/C10c.lean) on the real tables: every row the real tables produced during
+    the correspondence (numeric parameter values, all placements) is an instance of a TRACED row of the
+    same table and class — same classes, same template qubits, same matrices at the key gate's
+    parameter values — for one of the traced branches."""
+    nb = qgates.np_backend()
+    bad, first, n = 0, None, 0
+    for i, tname in enumerate(TABLE_NAMES):
+        for (c, t), (g, tmpl) in sorted(shapes.real_rows[i].items()):
+            name = g.__class__.__name__
+            traced = TRACED.get((i, name))
+            if not traced:
+                ctx.stat("faithful_untraced_class")  # matrix-valued entries (Unitary, fSim, …): numeric search only
+                continue
+            try:
+                vals = [float(np.asarray(p_).real) for p_ in g.parameters]
+            except Exception:
+                continue
+            n += 1
+            ctx.case(("faithful", tname, name, t))
+            hit = None
+            for label, k, params, outs in traced:
+                if len(vals) != k or len(outs) != len(tmpl):
+                    continue
+                # on a special-value branch the constrained parameters must have those values
+                try:
+                    if any(abs(complex(evaluate(p_.t, vals)) - v) > 1e-12 for p_, v in zip(params, vals)):
+                        continue
+                    same = True
+                    for (cname, (trees, targets, controls, dag)), x in zip(outs, tmpl):
+                        if cname != x.__class__.__name__ or list(targets) != list(x.qubits) or controls or x.is_controlled_by:
+                            same = False
+                            break
+                        m = np.array([[complex(evaluate(e, vals)) for e in row] for row in trees])
+                        if not np.allclose(m, np.asarray(x.matrix(nb)), atol=1e-9):
+                            same = False
+                            break
+                except Exception:
+                    same = False
+                if same:
+                    hit = label
+                    break
+            if hit is None:
+                bad += 1
+                first = first or f"{tname}[{name}{tuple(vals)}] = {[x.__class__.__name__ for x in tmpl]}"
+                nq = len(g.qubits)
+                try:
+                    ok = qgates.phase_equal(full_of(list(tmpl), nq), full_of([g], nq), 1e-7)
+                except Exception:
+                    ok = False
+                if not ok:
+                    code = make_code(name, list(g.qubits), vals)
+                    ctx.fail(f"operator:{name}:{tname}", f"the entry of {tname} for {code} is not the gate up to a global phase",
+                             REPLAY_PRE + f"from qibo.transpiler import decompositions as D\ng = {code}\nref = {code}\n"
+                             f"out = D.{tname}._check_instance(g, nb)\nassert phase_equal(full(out, {nq}), full([ref], {nq}), 1e-6)\n",
+                             observed=str([x.__class__.__name__ for x in tmpl]), broken=["C10_corr_faithful"])
+            else:
+                ctx.stat("faithful_" + ("generic" if hit.split(name, 1)[-1] == "" else "special_branch"))
+    ctx.stats["faithful_rows_checked"] = n
+    ctx.ob("C10_corr_faithful", bad == 0, "correspondence",
+           f"{bad} real table rows are not instances of a traced row, first: {first}" if bad else "")
+
+
+def zyz_model(u):
+    """Python twin of `QV.ZYZ.u3Angles` (QV/Proofs/ZYZ.lean), written with cmath only:
+    npSqrt z = z ^ (1/2) = exp(log z / 2), arctan2 y x = arg (x + y i), numpy.angle = arg."""
+    import cmath
+
+    det = u[0][0] * u[1][1] - u[0][1] * u[1][0]
+    s = cmath.exp(cmath.log(det) / 2)
+    su = [[u[i][j] / s for j in range(2)] for i in range(2)]
+    theta = 2 * cmath.phase(complex(abs(su[0][0]), abs(su[1][0])))
+    plus = cmath.phase(su[1][1])
+    minus = cmath.phase(su[1][0])
+    return theta, plus + minus, plus - minus
+
+
+def u3_model(theta, phi, lam):
+    """Python twin of `QV.ZYZ.u3Mat`."""
+    import cmath
+
+    cost, sint = math.cos(theta / 2), math.sin(theta / 2)
+    eplus = cmath.exp(1j * (phi + lam) / 2)
+    eminus = cmath.exp(1j * (phi - lam) / 2)
+    return np.array([[eplus.conjugate() * cost, -eminus.conjugate() * sint], [eminus * sint, eplus * cost]])
+
+
+def zyz_corpus(rng, thorough):
+    X = np.array([[0, 1], [1, 0]], dtype=complex)
+    Y = np.array([[0, -1j], [1j, 0]], dtype=complex)
+    Z = np.diag([1, -1]).astype(complex)
+    H = np.array([[1, 1], [1, -1]], dtype=complex) / math.sqrt(2)
+    out = dict(corpus_1q(rng))
+    out.update({"X": X, "Y": Y, "Z": Z, "H": H, "-X": -X, "iY": 1j * Y, "XZ": X @ Z, "S": np.diag([1, 1j]), "-Z": -Z,
+                "I": np.eye(2, dtype=complex), "-iI": -1j * np.eye(2, dtype=complex)})
+    for i in range(8 if thorough else 4):
+        a, b, c = (rng.uniform(-math.pi, math.pi) for _ in range(3))
+        out[f"antidiag{i}"] = np.array([[0, np.exp(1j * a)], [np.exp(1j * b), 0]])  # a = 0, det != 1
+        out[f"diag{i}"] = np.diag([np.exp(1j * a), np.exp(1j * b)])  # b = 0
+        out[f"phaseH{i}"] = np.exp(1j * c) * H
+        out[f"realrot{i}"] = np.array([[math.cos(a), -math.sin(a)], [math.sin(a), math.cos(a)]], dtype=complex)
+    for i in range(40 if thorough else 12):
+        out[f"haar{i}"] = haar(rng, 2)
+    return out
+
+
+def zyz_suite(ctx):
+    """the transliterated angle formulas (`u3Angles`, `u3Mat` of QV/Proofs/ZYZ.lean, about which
+    T10_u3_decomposition is proved) against the real `u3_decomposition` / `gates.U3`."""
+    import cmath
+
+    gates, D, U = modules()
+    from qibo.transpiler import unitary_decompositions as UD
+
+    nb = qgates.np_backend()
+    rng = ctx.rng
+    bad_a, bad_m, first = 0, 0, None
+    # (a) the matrix of gates.U3 = u3Mat (numeric twin of the kernel obligation C10_u3_matrix)
+    for _ in range(20):
+        t, p_, l = (rng.choice(PARAM_GRID) if rng.random() < 0.5 else rng.uniform(-7, 7) for _ in range(3))
+        if not np.allclose(np.asarray(gates.U3(0, t, p_, l).matrix(nb)), u3_model(t, p_, l), atol=1e-12):
+            bad_m += 1
+            first = first or f"gates.U3(0, {t}, {p_}, {l}).matrix differs from the model's u3Mat"
+    ctx.ob("C10_corr_u3_matrix", bad_m == 0, "correspondence", first or "")
+    # (b) the angles
+    first = None
+    for label, M in sorted(zyz_corpus(rng, ctx.thorough).items()):
+        M = np.array(M, dtype=complex)
+        ctx.case(("zyz", label))
+        ctx.stat("zyz_matrices")
+        Mc = f"np.array({M.tolist()})"
+        try:
+            real = UD.u3_decomposition(M.copy(), nb)
+        except Exception as e:
+            ctx.fail(f"zyz:raises:{type(e).__name__}", f"u3_decomposition of '{label}' raises {type(e).__name__}: {e}",
+                     REPLAY_PRE + f"from qibo.transpiler.unitary_decompositions import u3_decomposition\nM = {Mc}\nu3_decomposition(M, nb)\n",
+                     observed=str(e), broken=["C10_corr_zyz_angles"])
+            bad_a += 1
+            continue
+        # same determinant as the real code (numpy.linalg.det): on the branch cut of the square root
+        # (det = -1: X, Y, H) the sign of a rounding-level imaginary part decides the branch
+        det = complex(np.linalg.det(M))
+        s = cmath.exp(cmath.log(det) / 2)
+        su = M / s
+        model = (2 * cmath.phase(complex(abs(su[0, 0]), abs(su[1, 0]))),
+                 cmath.phase(su[1, 1]) + cmath.phase(su[1, 0]), cmath.phase(su[1, 1]) - cmath.phase(su[1, 0]))
+        same = all(abs(a - b) < 1e-9 for a, b in zip(real, model))
+        # the theorem's conclusion on the model's side, with the entry-formula determinant as well
+        thm = all(np.allclose(u3_model(*ang), M / cmath.exp(cmath.log(d_) / 2), atol=1e-9)
+                  for ang, d_ in ((model, det), (zyz_model(M.tolist()), M[0, 0] * M[1, 1] - M[0, 1] * M[1, 0])))
+        if not thm:
+            raise RuntimeError(f"harness: the Python twin of u3Angles does not satisfy T10_u3_decomposition on {label}")
+        if not same:
+            # an angle may sit on the cut of arg (entry on the negative real axis up to rounding): the
+            # matrices are then compared instead
+            if np.allclose(u3_model(*real), u3_model(*model), atol=1e-9) and all(abs(((a - b + math.pi) % (2 * math.pi)) - math.pi) < 1e-9 for a, b in zip(real, model)):
+                ctx.stat("zyz_angle_on_branch_cut")
+                continue
+            bad_a += 1
+            first = first or f"{label}: real {tuple(round(x, 9) for x in real)} / model {tuple(round(x, 9) for x in model)}"
+            ok = qgates.phase_equal(np.asarray(gates.U3(0, *real).matrix(nb)), M, 1e-7)
+            if not ok:
+                ctx.fail(f"zyz:{label.rstrip('0123456789')}", f"u3_decomposition of '{label}' does not reproduce the unitary up to a phase",
+                         REPLAY_PRE + f"from qibo.transpiler.unitary_decompositions import u3_decomposition\nM = {Mc}\n"
+                         "t, p, l = u3_decomposition(M.astype(complex), nb)\nassert phase_equal(gates.U3(0, t, p, l).matrix(nb), M, 1e-7)\n",
+                         expected=str(model), observed=str(real), broken=["C10_corr_zyz_angles"])
+    ctx.ob("C10_corr_zyz_angles", bad_a == 0, "correspondence",
+           f"{bad_a} matrices on which the real u3_decomposition and the transliterated formulas differ, first: {first}" if bad_a else "")
+
+
 def selfcheck(ctx):
     """the harness's own embedding against vlib's reference (guards the spec side)."""
     rng = ctx.rng
@@ -1461,6 +1721,8 @@ def run(ctx):
     lap("kernel_and_audit")
     shapes = correspondence(ctx)
     unroll_correspondence(ctx, shapes)
+    faithful_suite(ctx, shapes)
+    zyz_suite(ctx)
     lap("correspondence")
     gate_search(ctx, raised)
     lap("gate_search")
@@ -1469,8 +1731,14 @@ def run(ctx):
     lap("unitary_circuit_search")
     history_search(ctx)
     lap("history_search")
-    ctx.trusted.append("LAPACK eig/qr/svd inside two_qubit_decomposition and np.angle/arctan2 inside u3_decomposition are oracles: "
-                       "their results are checked numerically (1e-6) on the seeded corpus, not proved")
+    ctx.trusted.append("LAPACK eig/qr/svd inside two_qubit_decomposition are oracles: their results are checked numerically (1e-6) on the "
+                       "seeded corpus, not proved; u3_decomposition's angle formulas are proved correct for every 2x2 unitary "
+                       "(T10_u3_decomposition) about a transliteration over R/C (numpy.angle = Complex.arg, arctan2 y x = arg(x+iy), "
+                       "numpy.sqrt = principal root) that is compared with the real function to 1e-9 on every run (zyz_suite)")
+    ctx.notes.append("end to end: generated C10_unroll_circuit (QV/Gen/C10_Sem.lean) = T10_unroll_circuit_of_rows instantiated with the "
+                     "traced rows / class matrices / arities of the current source; its instance hypothesis `Faithful` is compared with "
+                     "the real tables on every run (faithful_suite: every real row produced during the correspondence is an instance of a "
+                     "traced row at the key gate's parameter values, matrices to 1e-9)")
     ctx.notes.append("kernel obligations for all parameter values: every entry of the six translation tables and the real translate_gate "
                      "under the 8 native sets (all branches of _u3_to_gpi2); dispatch model vs real translate_gate/Unroller/"
                      "assert_decomposition on the real tables' shapes; numeric search over class x native set x placement x "
